@@ -378,8 +378,7 @@ theorem c03_scale_invariance_llr (opa ns c : ℝ) (hc : 0 < c) (W : List ℝ) (Y
     (ds : List (Dataset ℝ))
     (hgood : ∀ p ∈ List.zip (ajk W Y) ds, C03.Rect p.1 p.2.Rk p.2.nSel ∧ 0 < sumF p.1) :
     stackedLLR opa ns (W.map (c * ·)) Y ds = stackedLLR opa ns W Y ds := by
-  unfold stackedLLR
-  simp only []
+  unfold stackedLLR evalWith
   rw [c03_scale_invariance c hc, ajk_scale, List.zip_map_left, List.map_map]
   congr 1
   apply List.map_congr_left
@@ -446,6 +445,22 @@ theorem c03_weighted_formula (opa ns : ℝ) (N : ℕ) (ak : List ℝ) (Rk : List
     LLH.llrOfRatios opa N ns (ratioWeighted ak Rk n)
       = C01.docLogLambda opa N ns ((List.range n).map (weightedMeanAt ak Rk)) := by
   rw [c03_weighted_mean_list ak Rk n hr hA, c01_eq_documented_formula]
+
+/-- **No dependence on history**: on one object graph, whatever was evaluated before and whoever
+recalculated the shared weight services in between (initial content `st` arbitrary), every
+`evaluate(p, ns)` returns the stateless value `stackedLLR` at the yields of *its own* parameters. -/
+theorem c03_eval_history_independent {P : Type} (opa : ℝ) (W : List ℝ) (Yof : P → List (List ℝ))
+    (ds : List (Dataset ℝ)) (st : List (List ℝ)) (ops : List (SvcOp P ℝ)) :
+    svcRun opa W Yof ds st ops
+      = ops.filterMap (fun op => match op with
+          | .recalc _ => none
+          | .eval p ns => some (stackedLLR opa ns W (Yof p) ds)) := by
+  induction ops generalizing st with
+  | nil => rfl
+  | cons op rest ih =>
+    cases op with
+    | recalc p => simp [svcRun, svcStep, ih]
+    | eval p ns => simp [svcRun, svcStep, ih, stackedLLR]
 
 /-! ### non-vacuity -/
 
